@@ -51,7 +51,10 @@ MBML = [  # multi-line trivia whose first line has multi-byte text before the ga
     "names = [\"Zoë\",\n         other]\nf('é',\n  b)",
     "x = ('ü' +\n     y)  # é\nz = {'k':  # ñ\n     v}\nw = [a,\n  'ö']",
 ]
-PROGS = BASE[:46] + EXTRA + BASE[46:] + FSTR + MBML  # positional case ids: later additions go to the end
+GENERIC = [  # decorated PEP 695 generics: decorators, type parameters and arguments all live in the header
+    "@functools.cache\ndef first[T, U: int](a: T) -> U: pass\n@d\nclass K[T, *V](B): pass",
+]
+PROGS = BASE[:46] + EXTRA + BASE[46:] + FSTR + MBML + GENERIC  # positional case ids: later additions go to the end
 for _p in PROGS:
     ast.parse(_p)
 
